@@ -134,6 +134,21 @@ def run(ctx):
     good = [r for r in g.returns() if r.e is not None and r.e.k == 'ref']
     rc.expect(len(add) == 1 and len(idst) == 1 and g.precedes(idst[0], add[0]) and all(g.dominates(add[0].point, r.point) for r in good) and good, 'register:link', add[0].loc if add else g.where(),
               'register must store the id in the entry, link it, and only then return the id', note='iid stored -> entry linked -> id returned')
+    # ids stay distinct only if the list stays sorted by id: when a hole is found (entry id != expected id) the new entry
+    # must be inserted BEFORE that entry, i.e. the insertion successor is the entry just examined
+    if add:
+        succ = add[0].args[1].s
+        hole = [s_ for s_ in g.stores(succ) if g.in_loop(s_.block)]
+        itv = None
+        for s_ in g.stores():
+            if s_.lhs.s == 'ie' and s_.rhs is not None and s_.rhs.k == 'ref':
+                itv = s_.rhs.s
+        def mismatch(a, t):
+            r = pathq.rel(a)
+            return r is not None and r[0] == '==' and not t and 'iid' in a.s
+        rc.expect(len(hole) == 1 and itv is not None and hole[0].rhs.s == itv and g.guarded_by(hole[0].point, mismatch), 'register:hole', hole[0].loc if hole else g.where(),
+                  'when an identifier hole is found the new entry must be linked before the entry examined (insertion successor = %s), otherwise the registry is no longer sorted and identifiers get duplicated (found %s)' % (itv, hole[0].rhs.s if hole else '?'),
+                  note='hole: insertion successor is the entry with the larger id')
     dup = [r for r in g.returns() if r.e is not None and r.e.cv is not None]
     rc.expect(all(g.guarded_by(r.point, lambda a, t: (not t) and a.k == 'call' and a.n == 'strcmp') for r in dup) and dup, 'register:duplicate', dup[0].loc if dup else g.where(),
               'registering an existing name must be refused', note='duplicate name refused')
